@@ -3,10 +3,29 @@ use std::fs::{self, File, OpenOptions};
 use std::io::{Read, Write};
 use std::path::{Path, PathBuf};
 use std::process;
+use std::sync::Mutex;
 use std::time::{SystemTime, UNIX_EPOCH};
 
 const LOCK_FILE_NAME: &str = "renamify.lock";
 const STALE_LOCK_TIMEOUT_SECS: u64 = 300; // 5 minutes
+
+/// Lock files currently held by this process, for exit paths that skip destructors.
+static HELD_LOCKS: Mutex<Vec<PathBuf>> = Mutex::new(Vec::new());
+
+/// Remove every lock file this process still holds.
+///
+/// `std::process::exit` does not run destructors, so a caller that exits from outside the
+/// normal control flow (the Ctrl-C handler while the confirmation prompt is waiting) calls this
+/// first; otherwise the lock file would be left behind.
+pub fn release_held_locks() {
+    let paths: Vec<PathBuf> = match HELD_LOCKS.try_lock() {
+        Ok(mut held) => held.drain(..).collect(),
+        Err(_) => return,
+    };
+    for path in paths {
+        let _ = fs::remove_file(&path);
+    }
+}
 
 #[derive(Debug)]
 pub struct LockFile {
@@ -83,6 +102,10 @@ impl LockFile {
         file.write_all(lock_content.as_bytes())
             .context("Failed to write lock file")?;
 
+        if let Ok(mut held) = HELD_LOCKS.lock() {
+            held.push(lock_path.clone());
+        }
+
         Ok(Self {
             path: lock_path,
             pid,
@@ -114,6 +137,9 @@ impl Drop for LockFile {
         // Best effort cleanup on drop
         if self.path.exists() {
             let _ = fs::remove_file(&self.path);
+        }
+        if let Ok(mut held) = HELD_LOCKS.lock() {
+            held.retain(|p| p != &self.path);
         }
     }
 }
